@@ -86,6 +86,7 @@ fn run_lines() {
             "crash" => c06::crash(&mut t),
             "sub" => c11::sub(&mut t),
             "upd" => c14::upd(&mut t),
+            "evict" => c14::evict(&mut t),
             "attach" => c12::attach(&mut t),
             "early" => c12::early(&mut t),
             "restart" => c13::restart(&mut t),
